@@ -358,11 +358,68 @@ def run_rename(c, rec):
         require(cuqi.utilities.get_non_default_args(m3) == ["zz"], "model @ distribution does not rename")
 
 
+# ----------------------------------------------------------------------------- PDE-based models
+
+def run_pde_model(c, rec):
+    """a PDE-based model acts identically on every representation of its input; reference = numpy solve of the generated system"""
+    import cuqi
+    from checks import c18
+    n, k = c["n"], c["k"]
+    if rec.classify({"model": "pde_steady", "solver": c["solver"]}, True):
+        return
+    Aof, bof, Ak, B = c18.steady_parts(c)
+    th = A(c["theta"])
+    grid = np.array(c["grid"], dtype=float)
+    solver, kw = c18.make_solver(c["solver"])
+    kwargs = {"grid_sol": grid}
+    if solver is not None:
+        kwargs["linalg_solve"] = solver
+    if kw is not None:
+        kwargs["linalg_solve_kwargs"] = kw
+    ref = lambda p: np.linalg.solve(Aof(p), bof(p))
+    # another PDE model (other operator) that is applied to the very same array objects first
+    Aof2 = lambda p: Aof(p) + 0.7 * np.eye(n)
+    dom = cuqi.geometry.Discrete(k)
+    other = cuqi.model.PDEModel(cuqi.pde.SteadyStateLinearPDE(lambda p: (Aof2(p), bof(p)), **kwargs), range_geometry=cuqi.geometry.Continuous1D(n),
+                                domain_geometry=dom)
+    model = must(lambda: cuqi.model.PDEModel(cuqi.pde.SteadyStateLinearPDE(lambda p: (Aof(p), bof(p)), **kwargs),
+                                             range_geometry=cuqi.geometry.Continuous1D(n), domain_geometry=dom), "constructing PDEModel")
+    tol = 1e-8
+    buf = th.copy()
+    y_other = np.asarray(other.forward(buf), dtype=float)
+    require(close(y_other, np.linalg.solve(Aof2(th), bof(th)), tol), "harness: second PDE model")
+    y = np.asarray(must(lambda: model.forward(buf), "PDEModel.forward"), dtype=float)
+    require(close(y, ref(th), tol), "PDEModel.forward(p) is not the solution of the assembled system (after another PDE model was applied to the same array object)",
+            got=y, want=ref(th))
+    # the caller's buffer overwritten in place
+    th2 = th * 0.5 + 0.1
+    buf[:] = th2
+    y2 = np.asarray(model.forward(buf), dtype=float)
+    require(close(y2, ref(th2), tol), "PDEModel.forward on a buffer that was overwritten in place returns the output of the buffer's earlier content",
+            got=y2, want=ref(th2))
+    # geometry-carrying arrays, keyword call
+    ya = model.forward(cuqi.array.CUQIarray(th.copy(), is_par=True, geometry=dom))
+    require(isinstance(ya, cuqi.array.CUQIarray) and close(np.asarray(ya), ref(th), tol), "PDEModel.forward(CUQIarray) differs or is not wrapped")
+    yf = model.forward(th.copy(), is_par=False)
+    require(close(np.asarray(yf, dtype=float), ref(th), tol), "PDEModel.forward(function values) differs")
+    # sample collections column-wise (also a chain that moves in tiny steps)
+    P = np.stack([th, th2, th * (1 + 1e-7), th * (1 + 2e-7) + 1e-9], axis=1)
+    Ys = must(lambda: model.forward(cuqi.samples.Samples(P.copy(), geometry=dom)), "PDEModel.forward(Samples)")
+    require(isinstance(Ys, cuqi.samples.Samples) and Ys.Ns == 4, "PDEModel.forward(Samples) does not return Samples with one column per input column")
+    for i in range(4):
+        want = ref(P[:, i])
+        require(maxdiff(np.asarray(Ys.samples, dtype=float)[:, i], want) <= tol * (1 + np.max(np.abs(want))),
+                "PDEModel.forward(Samples) is not column-wise forward", i=i, got=np.asarray(Ys.samples)[:, i], want=want)
+    require(maxdiff(buf, th2) == 0, "PDEModel.forward altered its input")
+
+
 SUBCHECKS = [
     SubCheck("C12/forward_representations", run_forward, strategy=model_cases, n={"quick": 1200, "thorough": 30000},
              shards={"quick": 4, "thorough": 16}),
     SubCheck("C12/gradient", run_gradient, strategy=model_cases, n={"quick": 1200, "thorough": 30000},
              shards={"quick": 4, "thorough": 16}),
+    SubCheck("C12/pde_model", run_pde_model, strategy=lambda tier: __import__("checks.c18", fromlist=["steady_cases"]).steady_cases(tier),
+             n={"quick": 300, "thorough": 5000}, shards={"quick": 2, "thorough": 8}),
     SubCheck("C12/apply_to_distribution", run_rename, strategy=model_cases, n={"quick": 500, "thorough": 10000},
              shards={"quick": 4, "thorough": 16}),
 ]
